@@ -74,7 +74,8 @@ Tight     == 3
 DevNoDiscard == "break_width_keeps_discardables"
 DevKernSign  == "break_width_kern_sign"
 DevNoCap     == "threshold_not_capped_at_inf_bad"
-AllDevs      == {DevNoDiscard, DevKernSign, DevNoCap}
+DevScanRun   == "replacement_run_scanned_for_breaks"
+AllDevs      == {DevNoDiscard, DevKernSign, DevNoCap, DevScanRun}
 
 Abs(x)     == IF x < 0 THEN -x ELSE x
 Min2(a, b) == IF a < b THEN a ELSE b
@@ -119,11 +120,11 @@ TotFrom(items, i, acc) ==
 Totals(items) == TotFrom(items, 1, <<Zero6>>)
 
 \* a list is well formed if every discretionary is followed by the items it replaces, which
-\* are boxes or font kerns (145: the replacement list holds no glue, penalties or discretionaries)
+\* are boxes or kerns (145, 1121: the replacement list holds no glue, penalties or discretionaries)
 WellFormed(items) ==
   \A a \in 1..Len(items) : items[a].k = "disc" =>
      /\ a + items[a].rep <= Len(items)
-     /\ \A j \in a + 1..a + items[a].rep : items[j].k = "box" \/ (items[j].k = "kern" /\ items[j].x = 0)
+     /\ \A j \in a + 1..a + items[a].rep : items[j].k \in {"box", "kern"}
 
 ---------------------------------------------------------------------------
 (* Reference layer, part 1: breakpoints and lines.                         *)
@@ -137,12 +138,22 @@ BreakPenalty(I, b) ==
                     [] OTHER -> 0
   IN IF raw <= EjectPenalty THEN EjectPenalty ELSE raw
 
+\* the node prev_p points to when the scan is at b > 1: the item before b, or -- when that item
+\* closes the replacement run of a discretionary -- the discretionary (869: prev_p := cur_p; cur_p := s)
+PrevItem(I, b) ==
+  LET items  == I.items
+      owners == {a \in 1..b - 2 : items[a].k = "disc" /\ items[a].rep > 0 /\ a + items[a].rep = b - 1} IN
+  IF owners # {} /\ DevScanRun \notin I.devs THEN items[SetMax(owners)] ELSE items[b - 1]
+
 \* may TeX call try_break at position b of the list?  (the chapter 14 list of breakpoints)
+\* Deviation DevScanRun: the scan does not jump over the replacement run of a discretionary, so an
+\* explicit kern in the run can be a breakpoint and the glue after the run looks at the run's last item.
 BreakPosition(I, b) ==
   LET items == I.items
       it    == items[b] IN
-  /\ \A a \in 1..b - 1 : items[a].k = "disc" => b > a + items[a].rep     \* 869 skips the replaced items
-  /\ CASE it.k = "glue" -> b > 1 /\ PrecedesBreak(items[b - 1])                    \* 868
+  /\ \/ DevScanRun \in I.devs
+     \/ \A a \in 1..b - 1 : items[a].k = "disc" => b > a + items[a].rep     \* 869 skips the replaced items
+  /\ CASE it.k = "glue" -> b > 1 /\ PrecedesBreak(PrevItem(I, b))                  \* 868
        [] it.k = "kern" -> it.x = 1 /\ b < Len(items) /\ items[b + 1].k = "glue"    \* 866 kern_break
        [] it.k = "pen"  -> TRUE
        [] it.k = "disc" -> TRUE
